@@ -383,6 +383,11 @@ Section OverlayAll.
     end.
 End OverlayAll.
 
+(* two landing paths collide when one is a prefix of the other; [apart]: they do not *)
+Definition apart (L1 L2 : list (list N)) : Prop :=
+  (forall r, L2 <> L1 ++ r) /\ (forall r, L1 <> L2 ++ r).
+Definition apart_b (L1 L2 : list (list N)) : bool := negb (is_prefix L1 L2) && negb (is_prefix L2 L1).
+
 (* ---- comparing a view with an expected view ---- *)
 Definition dent_match (d : dent) (e : xdent) : bool :=
   let x := x_d e in
